@@ -50,7 +50,7 @@ double p10(long long x) { return std::pow(10.0, (double)x); }
 int64_t ip10(long long x) { int64_t r = 1; for (long long i = 0; i < x; ++i) r *= 10; return r; }
 
 // ---- the fixture of spec/C11Abs.tla, parametrised by the point type
-struct Fix { long long b, m, x, sg, ax, pos; };
+struct Fix { long long b, m, x, sg, ax, pos, sh; };
 template <class T> T unit(const Fix& f);
 template <> double unit<double>(const Fix& f) { return p10(f.b); }
 template <> int64_t unit<int64_t>(const Fix& f) { return ip10(f.b); }
@@ -60,7 +60,15 @@ template <> int64_t probe_mag<int64_t>(const Fix& f) { return (int64_t)f.sg * (i
 
 template <class T> Path<T> square(T U, T dx, T dy) { return Path<T>{Point<T>(dx, dy), Point<T>(dx + 10 * U, dy), Point<T>(dx + 10 * U, dy + 10 * U), Point<T>(dx, dy + 10 * U)}; }
 template <class T> Path<T> probe_path(const Fix& f) {
-  T U = unit<T>(f); Path<T> p = square<T>(U, 0, 0);
+  T U = unit<T>(f);
+  if (f.sh != 0) {   // degenerate shapes: the bounding box has no area.  P = probe coordinate (20U when there is no probe)
+    T P = f.m == 0 ? 20 * U : probe_mag<T>(f);
+    auto pt = [&](T along, T across) { return f.ax == 0 ? Point<T>(along, across) : Point<T>(across, along); };
+    if (f.sh == 1) return Path<T>{pt(0, 5 * U), pt(P, 5 * U)};                       // axis-parallel 2-point segment
+    if (f.sh == 2) return Path<T>{pt(0, 5 * U), pt(10 * U, 5 * U), pt(P, 5 * U)};    // flat 3-point path
+    return Path<T>{pt(P, 5 * U)};                                                    // a single point
+  }
+  Path<T> p = square<T>(U, 0, 0);
   if (f.m == 0) return p;
   T M = probe_mag<T>(f);
   if (f.ax == 0) { Point<T> v(M, 5 * U); if (f.sg > 0) p.insert(p.begin() + 2, v); else p.push_back(v); }
@@ -70,6 +78,7 @@ template <class T> Path<T> probe_path(const Fix& f) {
 template <class T> Paths<T> probe_paths(const Fix& f) {
   T U = unit<T>(f); Paths<T> ps;
   if (f.pos == 1) ps.push_back(square<T>(U, 20 * U, 20 * U));
+  if (f.pos == 2) ps.push_back(f.ax == 0 ? Path<T>{Point<T>(20 * U, 5 * U), Point<T>(30 * U, 5 * U)} : Path<T>{Point<T>(5 * U, 20 * U), Point<T>(5 * U, 30 * U)});   // a second collinear segment
   ps.push_back(probe_path<T>(f));
   return ps;
 }
@@ -94,7 +103,7 @@ Obs run_row(const JV& r) {
   const std::string ep = r["ep"].s;
   const int p = (int)r["p"].i(); const long long q = r["q"].i(), zs = r["zs"].i(), cnt = r["cnt"].i();
   const long long ct = r["ct"].i(), fr = r["fr"].i();
-  Fix f{r["b"].i(), r["m"].i(), r["x"].i(), r["sg"].i(), r["ax"].i(), r["pos"].i()};
+  Fix f{r["b"].i(), r["m"].i(), r["x"].i(), r["sg"].i(), r["ax"].i(), r["pos"].i(), r["sh"].i()};
   Obs o;
   const double U = unit<double>(f);
   auto partnerD = [&]() { return PathsD{square<double>(U, 5 * U, 5 * U)}; };
@@ -128,6 +137,8 @@ Obs run_row(const JV& r) {
   if (ep == "XorD") { guarded(o, [&]() { o.n = (long long)Xor(probe_paths<double>(f), partnerD(), FillRule::NonZero, p).size(); }); return o; }
   if (ep == "Union1D") { guarded(o, [&]() { o.n = (long long)Union(probe_paths<double>(f), FillRule::NonZero, p).size(); }); return o; }
   if (ep == "InflatePathsD") { guarded(o, [&]() { o.n = (long long)InflatePaths(probe_paths<double>(f), U, JoinType::Miter, EndType::Polygon, 2.0, p).size(); }); return o; }
+  if (ep == "InflateOpenD") { guarded(o, [&]() { o.n = (long long)InflatePaths(probe_paths<double>(f), U, JoinType::Round, EndType::Round, 2.0, p).size(); }); return o; }
+  if (ep == "TrimCollinearOpenD") { guarded(o, [&]() { o.n = (long long)TrimCollinear(probe_path<double>(f), p, true).size(); }); return o; }
   if (ep == "RectClipD") { guarded(o, [&]() { o.n = (long long)RectClip(rect, probe_paths<double>(f), p).size(); }); return o; }
   if (ep == "RectClipPathD") { guarded(o, [&]() { o.n = (long long)RectClip(rect, probe_path<double>(f), p).size(); }); return o; }
   if (ep == "RectClipLinesD") { guarded(o, [&]() { o.n = (long long)RectClipLines(rect, probe_paths<double>(f), p).size(); }); return o; }
@@ -205,7 +216,7 @@ Obs run_row(const JV& r) {
   fprintf(stderr, "unknown entry point %s\n", ep.c_str()); exit(3);
 }
 
-const char* ROWKEYS[] = {"p", "q", "zs", "cnt", "ct", "fr", "b", "m", "x", "sg", "ax", "pos"};
+const char* ROWKEYS[] = {"p", "q", "zs", "cnt", "ct", "fr", "b", "m", "x", "sg", "ax", "pos", "sh"};
 
 // A row whose call kills the process (e.g. an unvalidated enum byte indexing out of bounds) must not take the whole
 // replay down: the handler writes the row's pre-formatted line with "crash":1 and exits with code 42; the driver
